@@ -129,7 +129,11 @@ func shapeOfC(chunk string, m *methodInfo) (shape string, ok bool) {
 	save := pos
 	if s := next(reArgCheck); s != nil && !strings.Contains(s[1], "active_coroutine") && strings.TrimSpace(body[save:pos-len(s[0])]) == "" {
 		cond := strings.ReplaceAll(s[1], " ", "")
-		f = append(f, "args:"+cond+"=>disable,"+retKind(s[2]))
+		k := retKind(s[2])
+		if k == "empty" {
+			k = "zero"
+		}
+		f = append(f, "args:"+cond+"=>disable,"+k)
 	} else {
 		pos = save
 		// a check list that does not disable?
@@ -270,11 +274,23 @@ func initShapeOfC(csrc, pkg, strct string) (string, bool) {
 		}
 		rest := strings.TrimLeft(csrc[i+j+1:], " \n")
 		if strings.HasPrefix(rest, "{") && strings.Contains(csrc[i:i+j], "size_t sizeof_star_self") {
-			end := strings.Index(rest, "\n}\n")
+			// the matching close brace (the generated text has no braces in strings or comments here)
+			depth, end := 0, -1
+			for k := 0; k < len(rest); k++ {
+				if rest[k] == '{' {
+					depth++
+				} else if rest[k] == '}' {
+					depth--
+					if depth == 0 {
+						end = k
+						break
+					}
+				}
+			}
 			if end < 0 {
 				return "", false
 			}
-			return initEvents(rest[:end]), true
+			return initEvents(rest[1:end]), true
 		}
 		idx = i + len(sig)
 	}
